@@ -237,6 +237,9 @@ func ucipos(args []string) {
 				if shape == "repeat" && r.Intn(3) == 0 {
 					line += " " // trailing blank
 				}
+				if shape != "repeat" && len(g.moves) == 0 && r.Intn(3) == 0 {
+					line += " moves" // the word with no move after it; a later command may extend it
+				}
 			}
 			sent := s.Send(line, tmo)
 			_, ready := s.Barrier(tmo)
